@@ -70,4 +70,24 @@ TreeOf(cols, specs, dts) == TreeFrom(cols, 1, specs, dts)
 MakeHist(rows, cols, specs, dts) ==
   LET T == TreeOf(cols, specs, dts)
   IN FoldFill(Zero(T), T, rows, [i \in DOMAIN rows |-> Q(1)])
+-----------------------------------------------------------------------------
+(* The convenience constructors (histogrammar.convenience): which tree each  *)
+(* name stands for.  ConvOK(name, d): descriptor d is what `name` builds.    *)
+PlainCount(d) == d.k = "Count" /\ d.tr = "id"
+Hist1D(d) == d.k = "Bin" /\ PlainCount(d.value) /\ PlainCount(d.under) /\ PlainCount(d.over) /\ PlainCount(d.nan)
+Sparse1D(d) == d.k = "SparselyBin" /\ PlainCount(d.value) /\ PlainCount(d.nan)
+BinOf(d, kind) == d.k = "Bin" /\ d.value.k = kind /\ PlainCount(d.under) /\ PlainCount(d.over) /\ PlainCount(d.nan)
+SparseOf(d, kind) == d.k = "SparselyBin" /\ d.value.k = kind /\ PlainCount(d.nan)
+ConvOK(name, d) ==
+  CASE name = "Histogram" -> Hist1D(d)
+    [] name = "HistogramCut" -> d.k = "Select" /\ Hist1D(d.cut)
+    [] name = "SparselyHistogram" -> Sparse1D(d)
+    [] name = "CategorizeHistogram" -> d.k = "Categorize" /\ PlainCount(d.value)
+    [] name = "Profile" -> BinOf(d, "Average")
+    [] name = "SparselyProfile" -> SparseOf(d, "Average")
+    [] name = "ProfileErr" -> BinOf(d, "Deviate")
+    [] name = "SparselyProfileErr" -> SparseOf(d, "Deviate")
+    [] name = "TwoDimensionallyHistogram" -> d.k = "Bin" /\ Hist1D(d.value) /\ PlainCount(d.under) /\ PlainCount(d.over) /\ PlainCount(d.nan)
+    [] name = "TwoDimensionallySparselyHistogram" -> d.k = "SparselyBin" /\ Sparse1D(d.value) /\ PlainCount(d.nan)
+    [] OTHER -> FALSE
 =============================================================================
